@@ -17,7 +17,7 @@ From AL Require Import Base.Str Base.AList Expr.Types Expr.Sema Expr.Recase Expr
 From AL Require Expr.Untrusted Expr.UntrustedSpec Expr.UntrustedProofs.
 From AL Require Wf.Avail Wf.AvailProofs.
 From AL Require Wf.Scope Wf.ScopeProofs.
-From AL Require Wf.YNode Wf.Mapping Wf.Sections Wf.ParseProofs.
+From AL Require Wf.YNode Wf.Mapping Wf.Sections Wf.ParseProofs Wf.RecaseMapping.
 From AL Require Graph.Dfs Graph.Needs Graph.NeedsProofs.
 From Coq Require Import Permutation.
 
@@ -146,6 +146,21 @@ Theorem C08_C13_dup_key_folded :
   exists p, In (Mapping.D (Mapping.DDuplicate (Mapping.key_name k) p) (YNode.ypos k)) (Mapping.run_section s init post n).
 Proof. exact (@ParseProofs.dup_key_reported_gen). Qed.
 Print Assumptions C08_C13_dup_key_folded.
+(* parse_mapping_recase (L1): in a case-insensitive mapping, two spellings of the keys give the
+   same entry ids (what every later lookup uses), the same diagnostics up to the key name echoed
+   by the duplicate-key message, and the same entries up to the name kept for messages *)
+Theorem C08_parse_mapping_recase : forall ps ps', RecaseMapping.pairs_recase ps ps' -> forall seen,
+  map RecaseMapping.fold_diag (fst (Mapping.pm_loop false ps seen)) =
+    map RecaseMapping.fold_diag (fst (Mapping.pm_loop false ps' seen)) /\
+  map RecaseMapping.fold_kv (snd (Mapping.pm_loop false ps seen)) =
+    map RecaseMapping.fold_kv (snd (Mapping.pm_loop false ps' seen)) /\
+  map Mapping.kv_id (snd (Mapping.pm_loop false ps seen)) = map Mapping.kv_id (snd (Mapping.pm_loop false ps' seen)).
+Proof. exact RecaseMapping.pm_loop_recase. Qed.
+Print Assumptions C08_parse_mapping_recase.
+Theorem C08_scalar_key_recase : forall tag v v' l c, lower v = lower v' ->
+  RecaseMapping.key_recase (YNode.Y YNode.KScalar tag v l c []) (YNode.Y YNode.KScalar tag v' l c []).
+Proof. exact RecaseMapping.scalar_key_recase. Qed.
+Print Assumptions C08_scalar_key_recase.
 Theorem C08_C13_key_id_folds : forall k, Mapping.key_id false k = lower (Mapping.key_name k).
 Proof. exact (fun k => eq_refl). Qed.
 Print Assumptions C08_C13_key_id_folds.
